@@ -1716,7 +1716,21 @@ LZ4_compressHC_continue_generic (LZ4_streamHC_t* LZ4_streamHCPtr,
                 ctxPtr->dictStart = ctxPtr->prefixStart;
     }   }   }
 
-    return LZ4HC_compress_generic (ctxPtr, src, dst, srcSizePtr, dstCapacity, ctxPtr->compressionLevel, limit);
+    {   int const offeredSize = *srcSizePtr;
+        int const result = LZ4HC_compress_generic (ctxPtr, src, dst, srcSizePtr, dstCapacity, ctxPtr->compressionLevel, limit);
+        if ((limit == fillOutput) && (result > 0) && (*srcSizePtr < offeredSize)) {
+            /* Only part of the input was consumed, but ctx->end and the match finder tables already cover
+             * the whole offered input. Restart history from consumed data only,
+             * so that the stream can be continued from the first unconsumed byte. */
+            const BYTE* const consumedEnd = (const BYTE*)src + *srcSizePtr;
+            size_t histSize = (size_t)(consumedEnd - ctxPtr->prefixStart);
+            LZ4_i8 const favor = ctxPtr->favorDecSpeed;
+            if (histSize > 64 KB) histSize = 64 KB;
+            LZ4_loadDictHC(LZ4_streamHCPtr, (const char*)consumedEnd - histSize, (int)histSize);
+            ctxPtr->favorDecSpeed = favor;
+        }
+        return result;
+    }
 }
 
 int LZ4_compress_HC_continue (LZ4_streamHC_t* LZ4_streamHCPtr, const char* src, char* dst, int srcSize, int dstCapacity)
